@@ -18,7 +18,9 @@ RULE = ('polynomials of degree 0..7 built from chosen dyadic roots (simple, at 0
         'non-constant target')
 TRUSTED = ['extraction of the float instance (ExtrOcamlBasic, ExtrOCamlFloats, ExtrOCamlInt63) and ocaml/c06.ml',
            'Rust harness harness/src/bin/c06.rs', 'exact-rational oracle tools/props/c06.py',
-           'IntermediatePolynomial: f64::powf (libm) is modelled by square-and-multiply; results compared under an envelope']
+           'IntermediatePolynomial: f64::powf (libm) is modelled by square-and-multiply; the relation goes through a Python copy of the '
+           'model that is checked bit for bit against the extracted model (square-and-multiply) and against the crate (libm pow '
+           'called through ctypes)']
 ASSUMPTIONS = ['theorems are about the R instance (exact arithmetic); float behaviour is measured by the bit-for-bit comparison',
                '"moderately scaled" (converse half) is read as: non-zero coefficients of the target and non-zero bracket ends in '
                '[2^-20, 2^20] and one ulp of the bracket scale moves the target by less than a quarter of the 1e-4 gate',
@@ -364,6 +366,186 @@ def known(case, impl, clause):
     return None
 
 
+# ----------------------------------------------------------------- float bridge for IntermediatePolynomial
+# The Coq float instance computes x^p by square-and-multiply (Base/Num.v float_powf); the crate calls libm pow.
+# The two differ in the last bit often enough (about one value in four for p = 3) to send a run through a different
+# branch now and then.  The bridge is a line-by-line Python copy of the model (Model/Solvers.v + the part of
+# Model/Poly.v used here), parametric in the power function.  For an IntermediatePolynomial case the relation is
+#     copy[square-and-multiply] == extracted Coq model   (bit for bit: the copy is the model)
+# and copy[libm pow]            == implementation        (bit for bit: pow is the only difference).
+import ctypes, ctypes.util
+_libm = ctypes.CDLL(ctypes.util.find_library('m') or 'libm.so.6')
+_libm.pow.restype = ctypes.c_double
+_libm.pow.argtypes = [ctypes.c_double, ctypes.c_double]
+INF = math.inf
+NAN = float('nan')
+
+
+def pow_libm(x, p):
+    return _libm.pow(x, p)
+
+
+def pow_sqmul(x, p):
+    """Base/Num.v float_powf: integral |p| < 2^31 by compiler-rt's powi loop, NaN otherwise"""
+    if p != p or abs(p) == INF or p != math.floor(p) or abs(p) >= 2.0 ** 31:
+        return NAN
+    n = int(abs(p))
+    if n == 0:
+        return 1.0
+    a, r = x, 1.0
+    while True:
+        if n & 1:
+            r = r * a
+        n >>= 1
+        if n == 0:
+            break
+        a = a * a
+    return r if p > 0 else fdiv(1.0, r)
+
+
+def fdiv(a, b):
+    if b == 0.0:
+        if a != a or a == 0.0:
+            return NAN
+        return math.copysign(INF, a) * math.copysign(1.0, b)
+    return a / b
+
+
+class FunctionError(Exception):
+    pass
+
+
+def sim_eval_inter(terms, env, powfn):
+    result = 0.0
+    for c, vs in terms:
+        tv = c
+        for nm, p in vs:
+            if nm not in env:
+                raise FunctionError('VariableNotFound')
+            tv = tv * powfn(env[nm], p)
+        result = result + tv
+    return result
+
+
+def sim_i_eval(poly, x, powfn):
+    terms, variables = poly
+    if len(variables) > 1:
+        raise FunctionError('TooManyVariables')
+    env = {variables[0]: x} if variables else {}
+    return sim_eval_inter(terms, env, powfn)
+
+
+def sim_i_derivate(poly):
+    terms, variables = poly
+    if len(variables) > 1:
+        raise FunctionError('TooManyVariables')
+    v = variables[0] if variables else 'x'
+    out = []
+    for c, vs in terms:
+        for i, (nm, p) in enumerate(vs):
+            if nm == v:
+                if p == 0.0:
+                    break
+                np_ = p - 1.0
+                nvs = list(vs)
+                if np_ == 0.0:
+                    del nvs[i]
+                else:
+                    nvs[i] = (nm, np_)
+                out.append((c * p, sorted(nvs, key=lambda e: e[0])))      # sort_poly: stable, by name
+                break
+    return (out, list(variables))
+
+
+def sim_show(x):
+    return 'ok ' + f2hex(x)
+
+
+def sim_bisection(poly, lo, init, hi, tol, cap, mode, powfn):
+    try:
+        if init < lo or init > hi:
+            return 'err XInitOutOfBounds'
+        if mode == 1:
+            poly = sim_i_derivate(poly)
+        it = 0
+        err = 100.0
+        lower, x, upper = lo, init, hi
+        while True:
+            old = x
+            x = (lower + upper) / 2.0
+            if x != 0.0:
+                err = fdiv(abs(x - old), x) * 100.0
+            vl = sim_i_eval(poly, lower, powfn)
+            test = vl * sim_i_eval(poly, x, powfn)
+            exact = False
+            if test < 0.0:
+                upper = x
+            elif test > 0.0:
+                lower = x
+            else:
+                if vl == 0.0:
+                    x = lower
+                err = 0.0
+                exact = True
+            if exact or (it > 0 and abs(err) < tol) or it >= cap:
+                break
+            it += 1
+        if it >= cap:
+            return 'err MaxIterationsReached'
+        v = sim_i_eval(poly, x, powfn)
+        return sim_show(x) if abs(v) < 1e-4 else 'err NoConvergence'
+    except FunctionError as e:
+        return 'err FunctionError:' + e.args[0]
+
+
+def sim_nrm(poly, x0, cap, tol, mode, powfn):
+    try:
+        if mode == 1:
+            poly = sim_i_derivate(poly)
+        dpoly = sim_i_derivate(poly)
+        it = 0
+        x = x0
+        err = 100.0
+        while True:
+            old = x
+            x = old - fdiv(sim_i_eval(poly, x, powfn), sim_i_eval(dpoly, x, powfn))
+            it += 1
+            if x != 0.0:
+                err = fdiv(abs(x - old), x) * 100.0
+            if x == x and abs(x) != INF and sim_i_eval(poly, x, powfn) == 0.0:
+                err = 0.0
+            if abs(err) < tol or it >= cap:
+                break
+        if it >= cap:
+            return 'err MaxIterationsReached'
+        return sim_show(x)
+    except FunctionError as e:
+        return 'err FunctionError:' + e.args[0]
+
+
+BRIDGE = {'used': 0, 'texts_differed': 0}
+
+
+def same_line(a, b):
+    if a == b:
+        return True
+    return a.startswith('ok ') and b.startswith('ok ') and same_float_tok(a[3:], b[3:])
+
+
+def bridge_compare(run, impl, model):
+    """run(powfn) -> result line of the Python copy"""
+    BRIDGE['used'] += 1
+    if not same_line(impl, model):
+        BRIDGE['texts_differed'] += 1
+    return same_line(run(pow_sqmul), model) and same_line(run(pow_libm), impl)
+
+
+def extra_evidence():
+    return {'intermediate_bridge_cases': BRIDGE['used'],
+            'intermediate_cases_where_libm_pow_changes_the_result': BRIDGE['texts_differed']}
+
+
+
 def close(a, b, rel):
     if a == b:
         return True
@@ -371,35 +553,12 @@ def close(a, b, rel):
 
 
 def compare(case, impl, model):
-    if impl == model:
-        return True
-    if impl.startswith('ok ') and model.startswith('ok '):
-        if same_float_tok(impl[3:], model[3:]):
-            return True
     d = parse(case)
     if d['ptype'] == 's':
-        return False
-    # IntermediatePolynomial: libm powf against square-and-multiply.  A last-bit difference in a value near a root
-    # can send the two runs into different halves; both then home in on the same sign change, so the results agree
-    # to within the stopping tolerance (percent) plus the width of the zone in which the sign of g is rounding noise.
-    if not (impl.startswith('ok ') and model.startswith('ok ')):
-        return False
-    a, b = hex2f(impl[3:]), hex2f(model[3:])
-    if not (fin(a) and fin(b)):
-        return False
-    g = target_of(d)
-    rel = 4 * Fraction(d['tol']) / 100 + 64 * EPS if fin(d['tol']) and d['tol'] > 0 else 64 * EPS
-    if close(a, b, rel):
-        return True
-    if isinstance(g, list):
-        # both inside the noise zone of the same root: |g| below the evaluation envelope at both points
-        ok = True
-        for x in (a, b):
-            fx = Fraction(x)
-            if abs(peval(g, fx)) > 8 * (len(g) + 3) * EPS * pabs_eval(g, fx) + TINY:
-                ok = False
-        return ok
-    return False
+        return same_line(impl, model)
+    poly = (d['terms'], d['vars'])
+    return bridge_compare(lambda pw: sim_bisection(poly, d['lo'], d['init'], d['hi'], d['tol'], d['cap'], d['mode'], pw),
+                          impl, model)
 
 
 # ----------------------------------------------------------------- generator
